@@ -3,6 +3,7 @@ package main
 import (
 	"context"
 	"encoding/json"
+	"expvar"
 	"fmt"
 	"math/big"
 	"math/rand"
@@ -190,6 +191,16 @@ func (consumersSuite) Run(h map[string]string, ops []string) []string {
 			tracker = t
 		}
 	}
+	var fsVar, rsVar, trVar expvar.Var
+	if fs != nil {
+		fsVar = fs.Var()
+	}
+	if rs != nil {
+		rsVar = rs.Var()
+	}
+	if tracker != nil {
+		trVar = tracker.Var()
+	}
 	out := make([]string, len(ops))
 	streamOps := 0
 	lastPartial := false // the stored config has no TimeKeeper: diagnostics then read the wall clock, not the substitute one
@@ -257,6 +268,36 @@ func (consumersSuite) Run(h map[string]string, ops []string) []string {
 						return c.TotalSum
 					}
 					tot = int64s(ts("Successes"), ts("ErrConcurrencyLimitRejects"), ts("ErrFailures"), ts("ErrShortCircuits"), ts("ErrTimeouts"), ts("ErrBadRequests"), ts("ErrInterrupts"))
+				}
+				// handles obtained ONCE at start-up (expvar.Publish) must follow the history like fresh ones
+				if fs != nil {
+					var fv struct{ Successes, ErrConcurrencyLimitRejects, ErrFailures int64 }
+					if err := json.Unmarshal([]byte(fsVar.String()), &fv); err != nil {
+						return "var-bad-json"
+					}
+					if fv.Successes != fs.Successes.TotalSum() || fv.ErrConcurrencyLimitRejects != fs.ErrConcurrencyLimitRejects.TotalSum() || fv.ErrFailures != fs.ErrFailures.TotalSum() {
+						return fmt.Sprintf("long-lived-FallbackStats-var-says-%d,%d,%d", fv.Successes, fv.ErrConcurrencyLimitRejects, fv.ErrFailures)
+					}
+				}
+				if rs != nil {
+					var rv map[string]json.RawMessage
+					if err := json.Unmarshal([]byte(rsVar.String()), &rv); err != nil {
+						return "var-bad-json"
+					}
+					var c struct{ TotalSum int64 }
+					_ = json.Unmarshal(rv["Successes"], &c)
+					if c.TotalSum != rs.Successes.TotalSum() {
+						return fmt.Sprintf("long-lived-RunStats-var-says-%d-successes", c.TotalSum)
+					}
+				}
+				if tracker != nil {
+					var tv struct{ Pass, Fail int64 }
+					if err := json.Unmarshal([]byte(trVar.String()), &tv); err != nil {
+						return "var-bad-json"
+					}
+					if tv.Pass != tracker.MeetsSLOCount.Get() || tv.Fail != tracker.FailsSLOCount.Get() {
+						return fmt.Sprintf("long-lived-tracker-var-says-%d,%d", tv.Pass, tv.Fail)
+					}
 				}
 				return fmt.Sprintf("open=%s vopen=%s vname=%s vtot=%s", b01(e.c.IsOpen()), b01(v.IsOpen), v.Name, tot)
 			case "tick":
